@@ -288,7 +288,7 @@ def agg_cases(run):
         sigs = []
         for _ in range(rng.choice([1, 2, 3, 3, 4])):
             ps = rsig(rng.choice([na, na, na + 1, na + 2, max(0, na - 1)]))
-            if rng.random() < .6:
+            if rng.random() < .8:
                 # derived from the call: exact, or with some positions replaced by a convertible / another type
                 for i, a in enumerate(args[:len(ps)]):
                     if rng.random() < .6: ps[i] = (a, ps[i][1])
